@@ -370,6 +370,20 @@ def _truth_key(k, facts):
             if l == r:
                 return True
             if r[0] == "const":
+                # x not in (a, b, ...) known  =>  x != a ;  x in (a,) known => x == a
+                for fk, fv in facts.items():
+                    if fk[0] == "cmp" and fk[1] == "In" and fk[2] == l and fk[3][0] == "const" and \
+                            isinstance(fk[3][1], (tuple, frozenset, list, set)):
+                        try:
+                            member = r[1] in fk[3][1]
+                        except TypeError:
+                            continue
+                        if fv is False and member:
+                            return False
+                        if fv is True and not member:
+                            return False
+                        if fv is True and member and len(fk[3][1]) == 1:
+                            return True
                 tl = truth(l, facts)
                 try:
                     br = bool(r[1])
@@ -1121,6 +1135,10 @@ class Analyzer:
                 v = sts[0].value
                 if isinstance(v, ast.Constant) and type(v.value) is int:
                     return ("const", v.value)
+                # ... a literal collection of strings / numbers (`_DOT_SEGMENTS = frozenset({".", ".."})`) is that collection
+                lit = _literal_collection(v)
+                if lit is not None:
+                    return ("const", lit)
                 # ... and `_VALID_PORTS = range(65536)` is that range
                 if isinstance(v, ast.Call) and isinstance(v.func, ast.Name) and v.func.id == "range" and not v.keywords and \
                         1 <= len(v.args) <= 2 and all(isinstance(a, ast.Constant) and type(a.value) is int for a in v.args) and \
@@ -1270,7 +1288,7 @@ class Analyzer:
         operands = [e.left] + list(e.comparators)
         out = []
         for s1, ts in self.eval_seq(operands, s):
-            cmps = [self._sentinel_identity(("cmp", type(op).__name__, ts[i], ts[i + 1])) for i, op in enumerate(e.ops)]
+            cmps = [self._sentinel_identity(("cmp", type(op).__name__, ts[i], ts[i + 1]), s1) for i, op in enumerate(e.ops)]
             if len(cmps) == 1:
                 out.append((s1, cmps[0]))
                 continue
@@ -1286,6 +1304,37 @@ class Analyzer:
                 if cur is None:
                     break
         return out
+
+    def _through_partial(self, f, args_t, kwargs):
+        """P(x, k=v) for a module-level `P = functools.partial(F, a, k0=v0)` is F(a, x, k0=v0, k=v)."""
+        if f[0] != "global" or f[1] not in self.model.modules:
+            return f, args_t, kwargs
+        r = self.model.resolve_global(f[1], f[2])
+        if not r or r[0] != "value" or len(r[3]) != 1 or not isinstance(getattr(r[3][0], "value", None), ast.Call):
+            return f, args_t, kwargs
+        c = r[3][0].value
+        fn = c.func
+        is_partial = (isinstance(fn, ast.Name) and fn.id == "partial") or (isinstance(fn, ast.Attribute) and fn.attr == "partial")
+        if not is_partial or not c.args or any(isinstance(a, ast.Starred) for a in c.args) or any(k.arg is None for k in c.keywords):
+            return f, args_t, kwargs
+        pt = self.global_term("partial") if isinstance(fn, ast.Name) else None
+        if isinstance(fn, ast.Name) and pt != ("ext", "functools", "partial"):
+            return f, args_t, kwargs
+        saved = self.fi
+        try:
+            from .fold import module_analyzer
+            an = module_analyzer(self.model, r[1])
+            inner = [an.eval(a, State()) for a in c.args]
+            kws = [(k.arg, an.eval(k.value, State())) for k in c.keywords]
+        finally:
+            self.fi = saved
+        if any(len(x) != 1 for x in inner) or any(len(v) != 1 for _k, v in kws):
+            return f, args_t, kwargs
+        target = inner[0][0][1]
+        pre = tuple(x[0][1] for x in inner[1:])
+        merged = dict((k, v[0][1]) for k, v in kws)
+        merged.update(dict(kwargs))
+        return target, pre + tuple(args_t), tuple(merged.items())
 
     def _keyed_update(self, e, f, args_t, kwargs):
         """[(key, value term)] when the call is `<dict>.update(...)` with literal string keys only, else None."""
@@ -1308,13 +1357,26 @@ class Analyzer:
             return None
         return out or None
 
-    def _sentinel_identity(self, c):
+    def _sentinel_identity(self, c, state=None):
         """`<literal> is SENTINEL` where SENTINEL is a module-level object created by a call (`_MISSING = object()`) or
         an Enum member (`UNDEFINED = UndefinedType._singleton`): a string / number / None literal is never that object."""
         if c[1] not in ("Is", "IsNot"):
             return c
         for a, b in ((c[2], c[3]), (c[3], c[2])):
-            if a[0] in ("const", "fstr", "binop", "cmp", "tuple", "list", "dict", "set", "comp", "call", "new") \
+            known_none = False
+            if state is not None and a[0] != "const":
+                # a value known to be None, or an instance of a builtin type (str, int, ...), on every path class it stands for
+                def excluded(f):
+                    if truth(("cmp", "Is", a, NONE), f) is True:
+                        return True
+                    for fk, fv in f.items():
+                        if fv is True and fk[0] == "call" and fk[1] == ("builtin", "isinstance") and len(fk[2]) == 2 and fk[2][0] == a:
+                            tys = fk[2][1][1] if fk[2][1][0] == "tuple" else (fk[2][1],)
+                            if tys and all(t_[0] == "builtin" for t_ in tys):
+                                return True
+                    return False
+                known_none = all(excluded(f) for f in alternatives(state.facts, a))
+            if (known_none or a[0] in ("const", "fstr", "binop", "cmp", "tuple", "list", "dict", "set", "comp", "call", "new")) \
                     and b[0] == "global" and b[1] in self.model.modules:
                 if a[0] == "call" and self._may_return(a, b[2]):
                     continue
@@ -1385,6 +1447,27 @@ class Analyzer:
                 g._parent = getattr(e, "_parent", None)
                 e._as_genexp = g
             return self.eval(g, s)
+        # filter(None, xs) is (x for x in xs if x); filter(f, xs) is (x for x in xs if f(x))
+        if isinstance(e.func, ast.Name) and e.func.id == "filter" and len(e.args) == 2 and not e.keywords and \
+                not any(isinstance(a, ast.Starred) for a in e.args) and self._k("filter") not in s.env and \
+                self.global_term("filter") == ("builtin", "filter"):
+            g = getattr(e, "_as_genexp", None)
+            if g is None:
+                var = "_filter_item"
+                name = lambda ctx: ast.Name(id=var, ctx=ctx)
+                test = name(ast.Load()) if (isinstance(e.args[0], ast.Constant) and e.args[0].value is None) else \
+                    ast.Call(func=e.args[0], args=[name(ast.Load())], keywords=[])
+                g = ast.GeneratorExp(elt=name(ast.Load()),
+                                     generators=[ast.comprehension(target=name(ast.Store()), iter=e.args[1], ifs=[test], is_async=0)])
+                ast.copy_location(g, e)
+                ast.fix_missing_locations(g)
+                for n_ in ast.walk(g):
+                    if not hasattr(n_, "lineno"):
+                        continue
+                    ast.copy_location(n_, e)
+                g._parent = getattr(e, "_parent", None)
+                e._as_genexp = g
+            return self.eval(g, s)
         # object.__new__(C): a fresh object
         for s1, f in self.eval(e.func, s):
             for s2, args in self.eval_seq(e.args, s1):
@@ -1392,6 +1475,7 @@ class Analyzer:
                 for s3, kvs in self.eval_seq(kwexprs, s2):
                     kwargs = tuple((k.arg, v) for k, v in zip(e.keywords, kvs))
                     args_t = tuple(args)
+                    f, args_t, kwargs = self._through_partial(f, args_t, kwargs)
                     opname = None
                     if f[0] == "attr" and f[1] == ("ext", "operator", None):
                         opname = f[2]
@@ -1565,7 +1649,47 @@ class Analyzer:
             res.append((new, val))
         return res
 
+    def _comp_literal(self, e, s, kind, elt):
+        """A comprehension with one generator over a literal tuple / list display (`for x in (host, port)`): evaluated
+        element by element, so the conditions are about the actual values. -> ('ucomp', kind, ((conditions, value), ...))"""
+        if len(e.generators) != 1 or e.generators[0].is_async:
+            return None
+        gen = e.generators[0]
+        res = self.eval(gen.iter, s)
+        if len(res) != 1:
+            return None
+        s1, it = res[0]
+        if it[0] not in ("tuple", "list") or any(x[0] == "star" for x in it[1]) or not (0 < len(it[1]) <= 8):
+            return None
+        items = []
+        for x in it[1]:
+            s2 = self.assign(gen.target, x, s1.copy().with_ctx(("comp", 0)), e)
+            conds, alive = [], True
+            for cond in gen.ifs:
+                r2 = self.eval(cond, s2)
+                if len(r2) != 1:
+                    return None
+                s2, t = r2[0]
+                self.event("cond", cond, s2, test=t, stmt=cond)
+                conds.append(t)
+                nxt = assume(s2, t, True)
+                if nxt is None:
+                    alive = False
+                    break
+                s2 = nxt
+            if not alive:
+                continue
+            r3 = self.eval(elt, s2)
+            if len(r3) != 1:
+                return None
+            decided = [c for c in conds if truth(c, s1.facts) is not True]
+            items.append((tuple(decided), r3[0][1]))
+        return [(s1, ("ucomp", kind, tuple(items)))]
+
     def _comp(self, e, s, kind, elt):
+        lit = self._comp_literal(e, s, kind, elt)
+        if lit is not None:
+            return lit
         inner = s.copy()
         iters = []
         filters = []        # the `if` tests of the generators (as terms): elements satisfy all of them
@@ -1613,6 +1737,21 @@ class Analyzer:
 
     def e_DictComp(self, e, s):
         return self._comp(e, s, "dict", ast.Tuple(elts=[e.key, e.value], ctx=ast.Load()))
+
+
+def _literal_collection(v):
+    """frozenset / tuple value of a display (or frozenset(<display>) / tuple(<display>)) of str / int literals, else None."""
+    wrap = None
+    if isinstance(v, ast.Call) and isinstance(v.func, ast.Name) and v.func.id in ("frozenset", "tuple") and len(v.args) == 1 and not v.keywords:
+        wrap, v = v.func.id, v.args[0]
+    if isinstance(v, (ast.Tuple, ast.Set, ast.List)) and v.elts and \
+            all(isinstance(x, ast.Constant) and type(x.value) in (str, int) for x in v.elts):
+        vals = [x.value for x in v.elts]
+        if wrap == "frozenset" or (wrap is None and isinstance(v, ast.Set)):
+            return frozenset(vals)
+        if wrap == "tuple" or (wrap is None and isinstance(v, ast.Tuple)):
+            return tuple(vals)
+    return None
 
 
 def _fold_int(op, l, r):
